@@ -57,8 +57,13 @@ func NewUnpackInfo(dst string, header *tar.Header) (UnpackInfo, error) {
 	// immediate parent directory of the file name in the tarball, checking
 	// the mode on each to ensure we wouldn't be passing through any
 	// symlinks.
+	//
+	// The components walked are those of the cleaned path the entry will
+	// actually be written to, not of the raw header name: a name such as
+	// "missing/../link/file" would otherwise stop the walk at "missing" and
+	// never look at "link".
 	currentPath := dst // Start at the root of the unpacked tarball.
-	components := strings.Split(header.Name, "/")
+	components := strings.Split(rel, string(filepath.Separator))
 
 	for i := 0; i < len(components)-1; i++ {
 		currentPath = filepath.Join(currentPath, components[i])
